@@ -9,7 +9,7 @@ META = dict(
     functions=['fake_trx.Application.__init__/append_trx/append_child_trx/trx_def/parse_argv', 'transceiver.Transceiver.__init__/ready/power_event_handler/tx_queue_clear/disable_fh/enable_fh',
                'ctrl_if_trx.CTRLInterfaceTRX.parse_cmd (POWERON/POWEROFF/RXTUNE/TXTUNE/SETFH)', 'ctrl_if.CTRLInterface.handle_rx/send_response', 'clck_gen.CLCKGen.start/stop/running',
                'trx_list.TRXList.add_trx/find_trx', 'udp_link.UDPLink.__init__'],
-    bounds=dict(all='application configurations: BTS+MS; + one child of the BTS; + two children; + an extra parent transceiver with a child (built by the real Application.__init__ from --trx definitions); '
+    bounds=dict(all='application configurations: BTS+MS; + one child of the BTS; + two children; + an extra parent transceiver with a child; + a child of the MS transceiver (which does not manage its children) (built by the real Application.__init__ from --trx definitions); '
                     'ONE command from an ARBITRARY pre-state satisfying the invariant: running flag of every transceiver, presence of rx/tx tuning and hopping on the addressed one, queued-burst presence (explored by forking on symbolic booleans); '
                     'command = POWERON|POWEROFF|RXTUNE f|TXTUNE f|SETFH hsn maio rx tx to any transceiver, numeric arguments symbolic; ports: base port symbolic 1024..65000, child index 0..3'),
     stubs=['fake socket', 'logging', 'threading.Thread/Event in clck_gen (no real thread: start() marks it alive)', 'signal.signal', 'sys.argv', 'stdout of the copyright banner'],
@@ -22,6 +22,7 @@ CONFIGS = {
     '+child1': ['--trx', 'TRX1@127.0.0.1:5700/1'],
     '+child2': ['--trx', 'TRX1@127.0.0.1:5700/1', '--trx', 'TRX2@127.0.0.1:5700/2'],
     '+parent+child': ['--trx', 'X@127.0.0.1:7700', '--trx', 'X1@127.0.0.1:7700/1'],
+    '+ms-child': ['--trx', 'M1@127.0.0.1:6700/1'],          # the MS transceiver does not manage its children (child_mgt = False)
 }
 VERBS = ['POWERON', 'POWEROFF', 'RXTUNE', 'TXTUNE', 'SETFH']
 
